@@ -27,7 +27,8 @@ SCENARIO_PROPS = {"C01", "C02", "C03", "C04", "C05", "C07", "C08", "C09", "C11",
 
 
 def relevant(o, prop):
-    return o["prop"] in (prop, None, "safety")
+    # "ANY" is a development aid (tools/eval_refactor.sh): every task, every obligation; it is not a registered check
+    return prop == "ANY" or o["prop"] in (prop, None, "safety")
 
 
 def finish(prop, tier, seed, tasks, results, wall, known, extra=None):
@@ -67,8 +68,8 @@ def finish(prop, tier, seed, tasks, results, wall, known, extra=None):
             guard_msgs.append(f"task {r['task']}: reachability covers not reached: {missing}")
 
     # ---- known findings
-    open_f = [f for f in known if f.get("status") == "open" and prop in ([f["property"]] + f.get("also", []))]
-    fixed_f = [f for f in known if f.get("status") == "fixed" and prop in ([f["property"]] + f.get("also", []))]
+    open_f = [f for f in known if f.get("status") == "open" and (prop == "ANY" or prop in ([f["property"]] + f.get("also", [])))]
+    fixed_f = [f for f in known if f.get("status") == "fixed" and (prop == "ANY" or prop in ([f["property"]] + f.get("also", [])))]
     known_lines = []
     unmatched = []
     matched_by = defaultdict(list)
@@ -146,7 +147,11 @@ def finish(prop, tier, seed, tasks, results, wall, known, extra=None):
     # a seeded search over scripted scenarios on the REAL code with oracles written from the property statement.  It can only
     # add a replayed failing input (a genuine violation); finding nothing leaves the verdict undecided / crashed - never "held".
     native_search = None
-    if not violations and (crashes or undecided or unsupported or errors) and prop in SCENARIO_PROPS:
+    open_props = {q for f in known if f.get("status") == "open" for q in [f["property"]] + f.get("also", [])}
+    stuck = bool(crashes or undecided or unsupported or errors)
+    # thorough tier: the same search also runs next to a decided proof (defence against an unsound stdlib model in the engine),
+    # except for properties with an open known finding, which the oracles would rediscover
+    if not violations and prop in SCENARIO_PROPS and (stuck or (tier == "thorough" and prop not in open_props)):
         budget = 60 if tier == "thorough" else 25
         try:
             payload = {"obligation": "undecided", "model": None, "property": prop, "budget_s": budget, "seed": seed or 1}
@@ -159,7 +164,9 @@ def finish(prop, tier, seed, tasks, results, wall, known, extra=None):
             name = f"native-search/{prop}/{rep.get('violated_clause') or 'property-oracle'}"
             rp = replay_dir / f"{prop}_native-search.json"
             rp.write_text(json.dumps({"property": prop, "obligation": name, "task": "native scenario search (bounded stand-in)",
-                                      "why": "the deductive check was undecided on this tree (see UNDECIDED / ENGINE-CRASH lines)",
+                                      "why": ("the deductive check was undecided on this tree (see UNDECIDED / ENGINE-CRASH lines)" if stuck else
+                                              "found by the bounded native search of the thorough tier although every obligation discharged: "
+                                              "the engine's model of Python or a contract is unsound here"),
                                       "script": "scenario.py", "payload": payload, "native_replay": rep}, indent=1, default=str))
             violations.append((name, rp, True))
 
